@@ -50,7 +50,7 @@ def post_allowed(fam):
 def hostile(rng, raw, n):
     kind = rng.choice(["delims", "copies", "ff", "random", "zeros"])
     if kind == "delims":
-        parts = MARKERS + [b"\n", b"\r\n", b",", b"xx", b"a", b"\x00\x00"]
+        parts = MARKERS + [b"\n", b"\r\n", b",", b"xx", b"a", b"\x00\x00", b"\\", b"z", b'"']
         out = b"".join(rng.choice(parts) for _ in range(n))[:n]
     elif kind == "copies":
         out = (raw * (n // max(len(raw), 1) + 1))[:n] if raw else b"\x01" * n
